@@ -3,23 +3,24 @@
 and the property's check (should report a violation), then restores /repo and re-runs the demo (must exit 0)."""
 import json, os, subprocess, sys
 prop, sd = sys.argv[1], sys.argv[2]
+REPO = os.environ.get('VERIF_REPO', '/repo')     # a scratch copy of the repository when several seeds are tried in parallel
 tier = sys.argv[sys.argv.index('--tier') + 1] if '--tier' in sys.argv else 'quick'
-env = dict(os.environ, PYTHONPATH='/repo:/verif/harness', JAX_PLATFORMS='cpu')
+env = dict(os.environ, PYTHONPATH=REPO + ':/verif/harness', JAX_PLATFORMS='cpu')
 def sh(cmd, **kw):
   return subprocess.run(cmd, shell=True, stdout=subprocess.PIPE, stderr=subprocess.STDOUT, text=True, **kw)
-assert sh('git -C /repo status --porcelain').stdout.strip() == '', '/repo not clean'
-r = sh('git -C /repo apply %s/patch.diff' % sd)
+assert sh('git -C %s status --porcelain' % REPO).stdout.strip() == '', 'repository copy not clean'
+r = sh('git -C %s apply %s/patch.diff' % (REPO, sd))
 assert r.returncode == 0, r.stdout
 res = {}
 try:
-  d = sh('cd /repo && /venv/bin/python %s/demo.py' % sd, env=env)
+  d = sh('cd %s && /venv/bin/python %s/demo.py' % (REPO, sd), env=env)
   res['demo_with_patch_exit'] = d.returncode
   c = sh('cd /verif && ./check %s --tier %s' % (prop, tier))
   res['check_exit'] = c.returncode
   res['check_tail'] = c.stdout.strip().splitlines()[-4:]
 finally:
-  sh('git -C /repo checkout -- .')
-d = sh('cd /repo && /venv/bin/python %s/demo.py' % sd, env=env)
+  sh('git -C %s checkout -- .' % REPO)
+d = sh('cd %s && /venv/bin/python %s/demo.py' % (REPO, sd), env=env)
 res['demo_clean_exit'] = d.returncode
 res['caught'] = res['check_exit'] == 1 and any('VIOLATION' in l for l in res['check_tail'])
 print(json.dumps(res, indent=1))
